@@ -245,3 +245,33 @@ Proof. vm_compute. reflexivity. Qed.
 Example C14_example_consec : consec 65535 [mkPkt 65535 1; mkPkt 0 2; mkPkt 1 3] /\
   Forall wf [mkPkt 65535 1; mkPkt 0 2; mkPkt 1 3].
 Proof. split; [cbn; auto|repeat constructor; cbn; lia]. Qed.
+
+(* ---- the translated code: reorder() as regenerated from receiver.go on every run (coq/gen/Prog.v, tools/go2coq -prog),
+   executed by the interpreter of GVL.Imp, returns what the model's [reorder] returns: the same buffer (packets as
+   handles), absPos, negativeCount, returned packets and lost count, for every buffer of at most 32768 slots, every
+   position and every packet, whenever the model's result is not a panic / endless loop (by C14_receiver_inv_reachable
+   it never is from Initialize).  First part: for every sufficiently large fuel; second part: no fuel gives another answer. *)
+From GVL Require Import Imp.
+From GVG Require Import Prog.
+From GV_receiver Require Import Code CodeProof.
+Theorem C14_receiver_reorder_program_is_the_model : forall b a ng lst p b' a' ng' out l k,
+  reorder b a ng lst p = RO b' a' ng' out l k ->
+  bsize b <= 32768 -> wfb b -> wfp p -> 0 <= a < 65536 -> 0 <= ng < 4611686018427387904 -> 0 <= lst < 65536 ->
+  (exists f0, forall f, (f0 <= f)%nat ->
+     out_enc (exec f p_recv_reorder (st0 b a ng lst p)) = ro_enc (RO b' a' ng' out l k)) /\
+  (forall f, exec f p_recv_reorder (st0 b a ng lst p) = OFuel \/
+     out_enc (exec f p_recv_reorder (st0 b a ng lst p)) = ro_enc (RO b' a' ng' out l k)).
+Proof. exact reorder_program_is_the_model. Qed.
+Print Assumptions C14_receiver_reorder_program_is_the_model.
+
+(* the interpreter's relational semantics is what [exec] computes (GVL.Imp) *)
+Theorem C14_receiver_interpreter_sound : forall s st o, bs s st o -> runs_to s st o.
+Proof. exact bs_runs_to. Qed.
+Print Assumptions C14_receiver_interpreter_sound.
+
+Example C14_example_reorder_program :
+  let b := [None; Some (mkPkt 3 30); Some (mkPkt 4 40); None] in
+  reorder b 0 0 1 (mkPkt 2 20) = RO [None; None; None; None] 3 0 [mkPkt 2 20; mkPkt 3 30; mkPkt 4 40] 0 KRun /\
+  out_enc (exec 100 p_recv_reorder (st0 b 0 0 1 (mkPkt 2 20))) =
+    ro_enc (RO [None; None; None; None] 3 0 [mkPkt 2 20; mkPkt 3 30; mkPkt 4 40] 0 KRun).
+Proof. exact reorder_program_example. Qed.
